@@ -67,3 +67,8 @@ CHECKS["C02"] = {
          "delete/recreate, file-vs-folder, rename away, one copy becoming unreadable) with every schedule slot, through the real engine, under a version-provenance oracle: no "
          "content a user wrote and nobody deleted or overwrote may be missing from both sides at quiescence; unreadable content is never copied, the good copy survives.",
  "technique": "bounded exhaustive exploration; two-sided operation histories, corrupt-read placement and schedule slots are z3 integer choices enumerated by solver-decided branching over the real engine; version-provenance oracle"}
+CHECKS["C05"] = {
+ "text": "Exhaustive bounded exploration with solver-enumerated choices (M2): 2 conflict shapes x 7 content pairs x 11 resolver behaviours x every 2-slot (3-slot) schedule after the conflict "
+         "exists, through the real engine with the resolver overridden at its documented override point; call count, handle bytes/labels and the statement's outcome table are checked "
+         "on both final trees.",
+ "technique": "bounded exhaustive exploration; resolver behaviour, content pair and schedule are z3 integer choices enumerated by solver-decided branching over the real engine; outcome-table oracle"}
